@@ -12,13 +12,19 @@ import itertools, json, os, random, subprocess, tempfile
 from vf import common, zcheck
 
 T = os.path.join(common.REPO, "tests")
-FILES = {"v1": os.path.join(T, "typedef.o"), "v2": os.path.join(T, "enum.o"), "nx": "/nonexistent/file.o", "dir": T, "txt": os.path.join(T, "tests.sh")}
+FILES = {"v1": os.path.join(T, "typedef.o"), "v2": os.path.join(T, "enum.o"), "v3": os.path.join(T, "bitcount.o"), "v4": os.path.join(T, "nontrivial-types.o"), "nx": "/nonexistent/file.o", "dir": T, "txt": os.path.join(T, "tests.sh")}
 # queries yield integers/strings only, so that records are fully predictable from library renderings
 QUERIES_NOFILE = ["1", "(1, 2, 3)", "!()", "1 2", '"a" "b" "c"', "1 )", "0x10 0o7 0b1", "(1, 2, drop drop)", "(drop, 1)", '(1, 2) "x" add', "[1, 2] elem hex",
                   '"%( (1, 2) %)-%s"' , "(1, 2, 3) if ?2 then (swap) else ()", "", "dup", "dup dup", "(|A| A A)", "(|A B| B A)", "type", "(|A| A (1, 2) add)"]
 QUERIES_FILE = ["entry offset", "entry ?TAG_typedef offset", "entry ?TAG_base_type name", "!()", "unit offset", "[entry] length", "entry offset (> 0x20)",
                 "entry ?root drop drop", "(|Dw| Dw entry offset)", "entry name", "1 )", "entry @AT_byte_size", "(|Dw| 1)", "entry ?root offset swap drop",
-                "(|Dw| (1, 2))", "entry offset 1 add drop drop drop"]
+                "(|Dw| (1, 2))", "entry offset 1 add drop drop drop",
+                # results that are DWARF values: DIEs with their attributes, attributes with one / several / no values, units, location
+                # expressions and their operations, address sets, sequences of all those, the Dwarf itself
+                "entry", "unit", "entry attribute", "entry @AT_type", "[entry]", "entry ?TAG_typedef", "(|Dw| Dw)", "entry @AT_location",
+                "entry @AT_location elem", "entry ?AT_location attribute ?AT_location", "[entry attribute]", "entry ?AT_low_pc address", "entry ?root [child]",
+                "entry ?AT_location [attribute ?AT_location value]", "entry attribute ?AT_name dup value", "unit root", "entry (|D| D D name)",
+                "0 0 aset, 1 5 aset 7 9 aset add", "entry ?AT_location (@AT_location address, @AT_location elem offset)", "raw entry", "raw entry attribute"]
 ARGS = [("-a", "x"), ("-a", "hello"), ("--a", "1"), ("--a", "(1, 2)"), ("--a", "(1, 2, 3)"), ("--a", "!()"), ("--a", '"s"'), ("--a", '("p", "q")'), ("--a", "0x10"),
         ("--a", "[7, 8] elem"), ("--a", "1 )"), ("--a", "drop")]
 
@@ -59,12 +65,114 @@ def facts_arg(d, kind, text):
     return vals
 
 
+class Unrenderable(Exception):
+    pass
+
+
+def hexsb(n):
+    """iostream std::hex << std::showbase: zero has no prefix."""
+    n &= (1 << 64) - 1
+    return b"0" if n == 0 else hex(n).encode()
+
+
+def quoted(b):
+    out = b'"'
+    esc = {0x22: b'\\"', 0x25: b"%%", 0x5c: b"\\\\", 7: b"\\a", 8: b"\\b", 9: b"\\t", 10: b"\\n", 11: b"\\v", 12: b"\\f", 13: b"\\r"}
+    for c in b:
+        if c in esc:
+            out += esc[c]
+        elif 0x20 <= c < 0x7f:
+            out += bytes([c])
+        else:
+            out += b"\\x%02x" % c
+    return out + b'"'
+
+
+def brief(v):
+    """The nested rendering (doc/tutorial: values inside sequences, attribute values, operands)."""
+    t = v["t"]
+    if t == "c":
+        return v["b"].encode("latin-1")
+    if t == "s":
+        return quoted(bytes.fromhex(v["v"]))
+    if t == "q":
+        return b"[" + b", ".join(brief(e) for e in v["v"]) + b"]"
+    if t == "dw":
+        return b"<Dwarf " + quoted(v["n"].encode("latin-1")) + b">"
+    if t == "cu":
+        return b"<CU " + hexsb(v["o"]) + b">"
+    if t == "die":
+        return b"[%x] " % v["o"] + label(v)
+    if t == "at":
+        return attr(v, b"\n\t\t")
+    if t == "lle":
+        return llelem(v)
+    if t == "llo":
+        return llop(v)
+    if t == "as":
+        return aset(v)
+    raise Unrenderable(t)
+
+
+def label(v):
+    l = v.get("lbl")
+    if not l or l[0]["t"] != "c":
+        raise Unrenderable("label")
+    return l[0]["b"].encode("latin-1")
+
+
+def attr(v, sep):
+    vals = v.get("vals")
+    if vals is None or any(x["t"] == "err" for x in vals):
+        raise Unrenderable("attribute values")
+    out = label(v)
+    if len(vals) == 0:
+        return out + b"\t<no value>"
+    if len(vals) == 1:
+        return out + b"\t" + brief(vals[0])
+    return out + b"".join(sep + brief(x) for x in vals)
+
+
+def llop(v):
+    p = v.get("props")
+    if not p or len(p) < 2 or any(x["t"] == "err" for x in p):
+        raise Unrenderable("operation")
+    return brief(p[0]) + b" " + brief(p[1]) + b"".join(b" <" + brief(x) + b">" for x in p[2:])
+
+
+def llelem(v):
+    e = v.get("elems")
+    if e is None or any(x["t"] == "err" for x in e):
+        raise Unrenderable("location expression")
+    return hexsb(int(v["lo"])) + b".." + hexsb(int(v["hi"])) + b":" + (b", ".join(llop(x) for x in e) if e else b"<empty location expression>")
+
+
+def aset(v):
+    if not v["r"]:
+        return b"<empty range>"
+    return b", ".join(hexsb(int(a)) + b".." + hexsb(int(a) + int(l)) for a, l in v["r"])
+
+
 def render(v):
-    if v["t"] == "c":
-        return v["f"].encode()
-    if v["t"] == "s":
-        return bytes.fromhex(v["v"])
-    return None
+    """The top-level (full) rendering of one yielded value; None if this oracle does not predict it."""
+    try:
+        t = v["t"]
+        if t == "c":
+            return v["f"].encode("latin-1")
+        if t == "s":
+            return bytes.fromhex(v["v"])
+        if t == "die":
+            a = v.get("attrs")
+            if a is None or any(x["t"] == "err" for x in a):
+                return None
+            return b"[%x]\t" % v["o"] + label(v) + b"".join(b"\n\t" + attr(x, b"\n\t\t") for x in a)
+        if t == "at":
+            return attr(v, b"\n\t")
+        if t in ("q", "dw", "cu", "lle", "llo", "as"):
+            return brief(v)
+        return None
+    except Unrenderable:
+        return None
 
 
 def expected(d, flags, query, files, args):
@@ -106,9 +214,10 @@ def expected(d, flags, query, files, args):
     match = False
     errors = False
     predictable = True
+    kinds = {}
     for combo in itertools.product(*dims):         # row-major: first dimension (files) slowest
         inp = ",".join(spec for spec, _ in combo)
-        r = d.run(query, inp=inp, fuel=0, max=100000, timeout=120)
+        r = d.run(query, inp=inp, fuel=0, max=100000, timeout=120, deep=1)
         parts = []
         for i, (spec, htxt) in enumerate(combo):
             if (i == 0 and files) or len(dims[i]) > 1:
@@ -128,6 +237,8 @@ def expected(d, flags, query, files, args):
                 if len(stk) > 1:
                     out += b"---\n"
                 for v in reversed(stk):
+                    if v["t"] not in ("c", "s"):
+                        kinds[v["t"]] = kinds.get(v["t"], 0) + 1
                     rv = render(v)
                     if rv is None:
                         predictable = False
@@ -145,7 +256,7 @@ def expected(d, flags, query, files, args):
             out += (header + b":" if with_header else b"") + str(nres).encode() + b"\n"
     if q:
         return dict(status=1, stdout=b"", err_must=[], err_mustnot=[], why="-q no match")
-    return dict(status=2 if errors else (0 if match else 1), stdout=out if predictable else None, err_must=err_must, err_mustnot=err_mustnot, why="ran")
+    return dict(status=2 if errors else (0 if match else 1), stdout=out if predictable else None, err_must=err_must, err_mustnot=err_mustnot, why="ran", kinds=kinds)
 
 
 def job(payload):
@@ -158,7 +269,7 @@ def job(payload):
     for i in range(count):
         flags = [f for f in ("-q", "-s", "-c", "-H", "-h") if rng.random() < 0.3]
         nfiles = rng.choice([0, 0, 1, 1, 2, 3])
-        files = [FILES[rng.choice(["v1", "v1", "v2", "nx", "dir", "txt"])] for _ in range(nfiles)]
+        files = [FILES[rng.choice(["v1", "v1", "v2", "v3", "v3", "v4", "nx", "dir", "txt"])] for _ in range(nfiles)]
         query = rng.choice(QUERIES_FILE if files else QUERIES_NOFILE)
         args = [rng.choice(ARGS) for _ in range(rng.choice([0, 0, 1, 1, 2]))]
         how = rng.choice(["-e", "-f", "pos"])
@@ -206,6 +317,8 @@ def job(payload):
             out["bad"].append(("stdout-not-empty-under--q:%s" % flagkey(flags), dict(w, stdout=p.stdout[:200].decode("latin-1"))))
         elif exp["stdout"] is not None:
             out["stdout_compared"] += 1
+            for k, n in exp.get("kinds", {}).items():
+                out["kind_" + k] = out.get("kind_" + k, 0) + n
             if exp["stdout"]:
                 out["nontrivial"] += 1
             if p.stdout != exp["stdout"]:
@@ -239,12 +352,13 @@ def run(chk):
         "distinct_nontrivial": tot.get("nontrivial", 0),
         "rule": "one evaluation = one dwgrep invocation whose exit status / stdout / stderr were predicted from library facts; non-trivial = invocations with a non-empty predicted stdout",
         "stdout_compared_byte_for_byte": tot.get("stdout_compared", 0),
+        "printed_values_compared_by_type_other_than_int_and_string": {k[5:]: v for k, v in tot.items() if k.startswith("kind_")},
         "invocations_by_expected_status": {k[7:]: v for k, v in tot.items() if k.startswith("status_")},
         "flag_sets": "random subsets of -q -s -c -H -h (32 subsets)", "query_sources": ["-e", "-f", "positional"],
         "queries": len(QUERIES_FILE) + len(QUERIES_NOFILE), "argument_forms": len(ARGS), "file_kinds": sorted(FILES),
         "samples": samples[:6],
     })
-    chk.assumptions += ["the count line of a combination whose execution raised is not judged under -c", "records are predicted for integer/string results only"]
+    chk.assumptions += ["the count line of a combination whose execution raised is not judged under -c", "records are predicted for integers, strings, sequences, DIEs, attributes, units, location expressions/operations, address sets and the Dwarf value; ELF symbols and abbreviation values are not rendered by this oracle"]
     if tot.get("n", 0) < 500 or tot.get("stdout_compared", 0) < 200:
         chk.inconc("too few invocations")
 
